@@ -408,6 +408,8 @@ pub fn resolve_cases(rng: &mut Rng, thorough: bool) -> Vec<RsCase> {
     let facts_pool: Vec<Value> = vec![
         map(&[("a", inner.clone()), ("A", Value::Int(1)), ("facts", Value::Int(2)), ("ab", Value::Vec(vec![Value::Int(3), Value::Int(4)])), ("b", Value::None), ("", Value::Int(5))]),
         map(&[("a", Value::Vec(vec![inner.clone(), Value::Int(6)])), ("aa", Value::Int(7))]),
+        // top-level fields whose NAME contains a dot, next to the data a path of that spelling would reach
+        map(&[("a", inner.clone()), ("a.A", Value::Int(70)), ("a.a", Value::Int(71)), ("ab.0", Value::Int(72)), ("ab", Value::Vec(vec![Value::Int(3), Value::Int(4)])), ("zz.a", Value::Int(73)), ("a.", Value::Int(74)), (".a", Value::Int(75))]),
         Value::Vec(vec![Value::Int(1), Value::Int(2)]),
         Value::None,
         Value::Int(9),
@@ -419,17 +421,18 @@ pub fn resolve_cases(rng: &mut Rng, thorough: bool) -> Vec<RsCase> {
         N(usize),
     }
     let steps: Vec<Step> = vec![Step::K("a"), Step::K("A"), Step::K("b"), Step::K("facts"), Step::K("ab"), Step::K("aa"), Step::K("zz"), Step::N(0), Step::N(1), Step::N(2), Step::N(3)];
-    let bases: Vec<Expr> = vec![reff("a"), reff("A"), reff("facts"), reff("ab"), reff("b"), reff("aa"), reff("zz"), reff("Facts"), Expr::Symbol("a".into()), Expr::Symbol("A".into()), Expr::Symbol("zz".into())];
+    let bases: Vec<Expr> = vec![reff("a"), reff("A"), reff("facts"), reff("ab"), reff("b"), reff("aa"), reff("zz"), reff("Facts"), Expr::Symbol("a".into()), Expr::Symbol("A".into()), Expr::Symbol("zz".into()),
+        reff("a.A"), reff("a.a"), reff("ab.0"), reff("zz.a"), reff("a."), reff(".a"), reff("facts.a"), Expr::Symbol("a.A".into()), Expr::Symbol("a.0".into())];
     let sym_tables: Vec<Vec<(String, Value)>> = vec![
         vec![],
-        vec![("a".into(), inner.clone())],
+        vec![("a".into(), inner.clone()), ("a.A".into(), Value::Int(80))],
         vec![("a".into(), Value::Int(1)), ("A".into(), Value::Int(2)), ("a".into(), Value::Vec(vec![Value::Int(3)]))],
     ];
     let mut out = vec![];
     let maxlen = if thorough { 3 } else { 2 };
     for (fi, facts) in facts_pool.iter().enumerate() {
         for (si, syms) in sym_tables.iter().enumerate() {
-            if si > 0 && fi > 1 {
+            if si > 0 && fi > 2 {
                 continue;
             }
             for b in &bases {
@@ -453,7 +456,7 @@ pub fn resolve_cases(rng: &mut Rng, thorough: bool) -> Vec<RsCase> {
     }
     // longer random paths and unknown functions
     for _ in 0..(if thorough { 20000 } else { 3000 }) {
-        let facts = facts_pool[rng.below(2)].clone();
+        let facts = facts_pool[rng.below(3)].clone();
         let mut e = bases[rng.below(bases.len())].clone();
         for _ in 0..(3 + rng.below(3)) {
             e = match &steps[rng.below(steps.len())] {
@@ -514,13 +517,18 @@ pub fn deep_none_cases(rng: &mut Rng, n: usize) -> Vec<RsCase> {
         reff("nothing"),
         lit(Value::None),
         idxk(reff("nothing"), "x"),
+        idxk(reff("facts"), "missing"),
+        idxk(idxk(reff("facts"), "nothing"), "x"),
     ];
+    // the same through the explicit `facts` root when the input itself is None (`evaluate(&None::<T>)`, `evaluate(&())`)
+    let sources_none_root: Vec<Expr> = vec![reff("facts"), idxk(reff("facts"), "age"), idxk(idxk(reff("facts"), "a"), "b"), idxn(reff("facts"), 0), idxk(idxn(reff("facts"), 1), "k")];
     let prop_bin = ["mult", "div", "rem", "add", "sub", "bitand", "bitor", "bitxor"];
     let prop_un = ["not", "neg", "toint", "tofloat", "todec", "datetime", "duration", "upper", "lower", "trim", "round", "floor", "fract", "year", "month", "week", "day", "hour", "minute", "second"];
     let mut out = vec![];
     for _ in 0..n {
-        let mut e = sources[rng.below(sources.len())].clone();
-        let depth = 1 + rng.below(5);
+        let none_root = rng.chance(1, 6);
+        let mut e = if none_root { sources_none_root[rng.below(sources_none_root.len())].clone() } else { sources[rng.below(sources.len())].clone() };
+        let depth = if none_root { rng.below(3) } else { 1 + rng.below(5) };
         for _ in 0..depth {
             let other = lit(pool[rng.below(pool.len())].clone());
             e = match rng.below(4) {
@@ -548,7 +556,7 @@ pub fn deep_none_cases(rng: &mut Rng, n: usize) -> Vec<RsCase> {
             7 => (mk_bin("contains", e, other), "(ok (bool 0))"),
             _ => (iff(e, lit(Value::Int(1)), lit(Value::Int(2))), "(err type)"),
         };
-        out.push(RsCase { tag: format!("expect:{}", expect), rules: vec![e], facts: facts.clone(), env: EnvSpec::default(), evals: 1 });
+        out.push(RsCase { tag: format!("expect:{}", expect), rules: vec![e], facts: if none_root { Value::None } else { facts.clone() }, env: EnvSpec::default(), evals: 1 });
     }
     out
 }
